@@ -156,9 +156,13 @@ func hashMsiDir(cdf *comdoc.ComDoc, parent *comdoc.DirEnt, d io.Writer) error {
 		return err
 	}
 	sortMsiFiles(files)
+	// only the root storage holds the signature streams of this document;
+	// entries of those names in a sub-storage (an embedded signed package)
+	// are content
+	isRoot := parent.Type == comdoc.DirRoot
 	for _, item := range files {
 		name := item.Name()
-		if name == msiDigitalSignature || name == msiDigitalSignatureEx {
+		if isRoot && (name == msiDigitalSignature || name == msiDigitalSignatureEx) {
 			continue
 		}
 		switch item.Type {
@@ -188,9 +192,10 @@ func prehashMsiDir(cdf *comdoc.ComDoc, parent *comdoc.DirEnt, d io.Writer) error
 	}
 	sortMsiFiles(files)
 	prehashMsiDirent(parent, d)
+	isRoot := parent.Type == comdoc.DirRoot
 	for _, item := range files {
 		name := item.Name()
-		if name == msiDigitalSignature || name == msiDigitalSignatureEx {
+		if isRoot && (name == msiDigitalSignature || name == msiDigitalSignatureEx) {
 			continue
 		}
 		switch item.Type {
